@@ -1617,3 +1617,52 @@ func ruleNoPhantomField(p *Prog, r *Out) {
 		c.expr(key, guard.Cond, fdeDomain{[]string{"len(b)", "hf.Empty()"}, [][]int64{seq(0, 2), {0, 1}}}, nil, func(e fdeEnv) int64 { return b2i(e["len(b)"] == 0 && e["hf.Empty()"] != 0) }, "len(b) == 0 && hf.Empty()", "only a call that used up the fragment can have ended in a size update; skipping on an empty field alone drops real fields, skipping on exhausted input alone drops the last field of every fragment")
 	}
 }
+
+func init() {
+	register(&Rule{
+		Name: "chunk-storage-per-stream", Props: []string{"C01", "C02", "C19"}, Engine: "AST", Floor: 2,
+		Doc: "the buffer a streamed body's pending chunk points into belongs to that stream (a field of the same object that holds the chunk): several streams can each have an unsent chunk while they wait for window, so storage shared across streams is overwritten by whichever refills next",
+		Run: func(p *Prog, r *Out) {
+			for _, s := range []struct{ fn, owner, chunk string }{
+				{"(*serverConn).refillPending", "strm", "pendingData"},
+				{"(*Conn).refillPending", "pb", "body"},
+			} {
+				fd := p.decl(s.fn)
+				if fd == nil {
+					r.undecided(s.fn, "?", "no longer resolves")
+					continue
+				}
+				r.fn(s.fn)
+				defs := singleDefs(fd.Body)
+				ok, src := false, "?"
+				ast.Inspect(fd.Body, func(n ast.Node) bool {
+					as, isA := n.(*ast.AssignStmt)
+					if !isA || len(as.Lhs) != 1 || squash(p.text(as.Lhs[0])) != s.owner+"."+s.chunk {
+						return true
+					}
+					e := ast.Unparen(as.Rhs[0])
+					// follow slices and single-definition locals down to the storage
+					for i := 0; i < 6; i++ {
+						switch x := e.(type) {
+						case *ast.SliceExpr:
+							e = ast.Unparen(x.X)
+							continue
+						case *ast.Ident:
+							if d, okd := defs[x.Name]; okd {
+								e = ast.Unparen(d)
+								continue
+							}
+						}
+						break
+					}
+					src = squash(p.text(e))
+					if sel, isSel := e.(*ast.SelectorExpr); isSel && p.text(sel.X) == s.owner {
+						ok = true
+					}
+					return true
+				})
+				r.check(ok, s.fn+" reads into the stream's own buffer", p.pos(fd.Pos()), s.owner+"."+s.chunk+" = "+s.owner+".<buffer>[:n]", fmt.Sprintf("%s points the stream's pending chunk into %s, which is not storage of that stream: while the chunk waits for flow-control window another stream's refill overwrites it, and the peer receives the other body's octets under this stream's id", s.fn, src))
+			}
+		},
+	})
+}
